@@ -1,23 +1,33 @@
 //! C18 harness: `undeclared_variables` never omits a variable the template reads.
 //!
-//! For every generated single-file template (blocks, recursive loops and loop controls included;
-//! include/import/extends are not generated) the binary
+//! For every generated single-file template (blocks, recursive loops, loop controls, include /
+//! import / extends of fixed helper templates included) the binary
 //!   * parses it with the real parser and dumps the real AST as a prefix token stream
 //!     (input of the Lean driver `drive_c18`, which runs the model `findUndeclared` on it),
 //!   * asks the real analysis (`Template::undeclared_variables(false / true)`),
-//!   * renders it under `UndefinedBehavior::Lenient` with several *recording* context objects
-//!     (every key the engine asks the context for is logged) whose inner values differ so that
-//!     different branches are taken,
+//!   * renders it (undefined behaviour, named/from_str, syntax derived from the source text) with
+//!     four *recording* context objects (every key the engine asks the context for is logged):
+//!     all names truthy and non-empty / mixed kinds / sparse and falsy / all names empty and falsy,
+//!     so that both sides of every branch and empty as well as non-empty loops are rendered,
+//!     plus `render_captured` + `render_block` of every block + `call_macro` of every export,
 //! and prints one line  `<hex of source>\t<json>`  with
 //!   {"parse":"ok"|"err", "ast":"…", "und":[…], "nested":[…], "reads":[[…],…], "outcome":[…],
 //!    "kinds":{…}, "recursive":bool, "selfref":[macro names referenced in their own body]}
 //!
 //! A case whose source starts with `#expr# ` is a bare expression and goes through
 //! `Environment::compile_expression` / `Expression::undeclared_variables` / `Expression::eval`.
+//! A case whose source starts with `#set# ` is a file set (see `c18_set.inc`): every look-up is
+//! attributed to the file whose code performed it.  Systematic cases (`c18_sys.inc`) carry a
+//! `"shape"` label.
 //!
-//! usage: c18 gen <quick|thorough>     fixed corpus + generated cases (seeded by VERIF_SEED); the cases
-//!                                     run in worker processes (`c18 worker <tier> <start>`), a case that
-//!                                     aborts the process is reported as {"parse":"abort"}
+//! usage: c18 gen <quick|thorough> [start count]
+//!                                     the case sequence (or its slice start .. start+count): fixed corpus,
+//!                                     seeded random templates (VERIF_SEED), the systematic scope product
+//!                                     (c18_sys.inc), special names, file sets (c18_set.inc); the cases run in
+//!                                     worker processes (`c18 worker <tier> <first> <step> <end>`, dealt
+//!                                     round-robin, read back in sequence order), a case that aborts the
+//!                                     process is reported as {"parse":"abort"}
+//!        c18 count <tier>             length of the sequence, size of the systematic product
 //!        c18 srcs <quick|thorough>    only the hex sources of the sequence
 //!        c18 one <hex source>         replay a single case
 //!        c18 text <source>            same, source given literally
@@ -109,6 +119,9 @@ struct Rec {
     inner: BTreeMap<String, Value>,
     log: Mutex<Vec<String>>,
     paths: PathLog,
+    /// file sets: every key is logged as `<file index><US><key>` (the file whose instruction the
+    /// VM dispatched last, see `c18_set.inc`)
+    tagged: bool,
 }
 
 impl Object for Rec {
@@ -118,7 +131,12 @@ impl Object for Rec {
     fn get_value(self: &Arc<Self>, key: &Value) -> Option<Value> {
         match key.as_str() {
             Some(s) => {
-                self.log.lock().unwrap().push(s.to_string());
+                if self.tagged {
+                    let file = CUR_FILE.with(|c| c.get());
+                    self.log.lock().unwrap().push(format!("{}{}{}", file, US, s));
+                } else {
+                    self.log.lock().unwrap().push(s.to_string());
+                }
                 self.inner.get(s).cloned()
             }
             None => {
@@ -170,15 +188,31 @@ const NAME_STRINGS: [&str; 14] = [
 /// names the helper templates read; the contexts also provide the dynamic template names
 const TEMPLATE_NAME_VARS: [(&str, &str); 3] = [("tpl", "inc.txt"), ("libname", "lib.txt"), ("basename", "base.txt")];
 
-/// context number `which` for a template (deterministic in `seed`)
+/// context number `which` for a template (deterministic in `seed`):
+/// 0 = every name truthy and non-empty, 1 = mixed kinds, 2 = sparse + falsy, 3 = every name
+/// defined but empty / falsy (every loop runs its else branch, every condition is false)
 fn mk_context(which: usize, seed: u64) -> Arc<Rec> {
+    mk_context_with(which, seed, false)
+}
+
+fn mk_context_tagged(which: usize, seed: u64) -> Arc<Rec> {
+    mk_context_with(which, seed, true)
+}
+
+fn mk_context_with(which: usize, seed: u64, tagged: bool) -> Arc<Rec> {
     let mut inner = BTreeMap::new();
     let paths: PathLog = Arc::new(Mutex::new(Vec::new()));
     let mut rng = Rng::new(seed ^ (which as u64).wrapping_mul(0x5851F42D4C957F2D));
-    for name in POOL.iter().chain(SPECIAL.iter()) {
+    // file sets: the helpers' own free names exist too, so that strict renders get past them
+    let extra: &[&str] = if tagged { &SET_EXTRA_NAMES } else { &[] };
+    for name in POOL.iter().chain(SPECIAL.iter()).chain(extra.iter()) {
         let v = match which {
             0 => mk_value(1, name, &paths),
+            // `c` false and `q` true: the one combination that takes an `elif q` branch behind `if c`
+            1 if *name == "c" => mk_value(6, name, &paths),
+            1 if *name == "q" => mk_value(1, name, &paths),
             1 => mk_value(*rng.pick(&[1, 1, 1, 1, 8, 8, 2, 2, 0, 0, 0, 3, 4, 5, 6, 7, 9, 10, 11, 12, 13, 14, 15, 16]), name, &paths),
+            3 => mk_value(2, name, &paths),
             _ => mk_value(if rng.chance(1, 2) { 0 } else { *rng.pick(&[2, 6, 1, 9, 8]) }, name, &paths),
         };
         if let Some(v) = v {
@@ -195,10 +229,11 @@ fn mk_context(which: usize, seed: u64) -> Arc<Rec> {
     for key in STRING_ONLY_KEYS.iter() {
         inner.insert(key.to_string(), Value::from_object(U { depth: 2, len: 2, path: None }));
     }
-    Arc::new(Rec { inner, log: Mutex::new(Vec::new()), paths })
+    Arc::new(Rec { inner, log: Mutex::new(Vec::new()), paths, tagged })
 }
 
-const N_CONTEXTS: usize = 3;
+const N_CONTEXTS: usize = 4;
+const SET_EXTRA_NAMES: [&str; 8] = ["inc_var", "inc_m", "lib_var", "lib_top", "base_var", "base_b0", "base_m", "keep"];
 
 /// how a case is run; derived from the source text, so a case replays from its hex
 #[derive(Clone, Copy)]
@@ -254,7 +289,8 @@ impl Cfg {
 }
 
 /// the other templates of the environment (targets of include / import / extends)
-const HELPERS: [(&str, &str); 3] = [
+const HELPERS: [(&str, &str); 4] = [
+    ("setx.txt", "{% set x = 1 %}{{ setx_var }}"),
     ("inc.txt", "{{ inc_var }}{% set leaked = 1 %}"),
     (
         "lib.txt",
@@ -1222,6 +1258,8 @@ const CORPUS: &[&str] = &[
     "#expr# foo[a:b] ~ loop ~ self ~ self.x() ~ loop(q)",
 ];
 
+include!("c18_sys.inc");
+
 // ------------------------------------------------------------------------------------------------
 // running one template
 // ------------------------------------------------------------------------------------------------
@@ -1248,8 +1286,14 @@ fn fnv(s: &str) -> u64 {
 /// `Expression::undeclared_variables`, `Expression::eval`) instead of a template
 const EXPR_MARK: &str = "#expr# ";
 
+include!("c18_set.inc");
+
 /// The contexts are derived from the source text alone, so a case replays from its hex.
-fn run_one(full_src: &str) -> String {
+/// `light`: the systematic stream skips the debug-mode render.
+fn run_one(full_src: &str, light: bool) -> String {
+    if full_src.starts_with(SET_MARK) {
+        return run_set(full_src);
+    }
     let seed = fnv(full_src);
     let (is_expr, plain_src) = match full_src.strip_prefix(EXPR_MARK) {
         Some(rest) => (true, rest),
@@ -1458,7 +1502,7 @@ fn run_one(full_src: &str) -> String {
     }
     // debug mode (separate stream): a failing render builds its error report from the values of
     // the names mentioned before the failing instruction (`State::make_debug_info`)
-    if !is_expr {
+    if !is_expr && !light {
         let mut denv = mk_env(cfg);
         denv.set_debug(true);
         let rec = mk_context(1, seed);
@@ -1478,14 +1522,18 @@ fn n_generated(tier: &str) -> usize {
     if tier == "thorough" {
         100_000
     } else {
-        3_000
+        4_000
     }
 }
 
-/// the deterministic case sequence: corpus first, then seeded random templates
-fn for_each_source(tier: &str, f: &mut dyn FnMut(&str)) {
+/// how many of the non-sparse systematic templates quick selects (thorough: the whole product)
+const SYS_QUICK: usize = 12_000;
+
+/// the deterministic case sequence: corpus, seeded random templates, the systematic scope
+/// product (`c18_sys.inc`), the file sets (`c18_set.inc`); `f(shape label, source)`
+fn for_each_source(tier: &str, f: &mut dyn FnMut(&str, &str)) {
     for src in CORPUS.iter() {
-        f(src);
+        f("", src);
     }
     let mut master = Rng::new(seed_from_env());
     for i in 0..n_generated(tier) {
@@ -1512,20 +1560,37 @@ fn for_each_source(tier: &str, f: &mut dyn FnMut(&str)) {
         } else {
             g.body(0, false, false)
         };
-        f(&src);
+        f("", &src);
     }
+    sys_selected(tier, seed_from_env(), SYS_QUICK, f);
+    special_each(f);
+    set_each(f);
+}
+
+fn n_sources(tier: &str) -> usize {
+    let mut n = 0usize;
+    for_each_source(tier, &mut |_, _| n += 1);
+    n
 }
 
 fn nth_source(tier: &str, n: usize) -> String {
     let mut idx = 0usize;
     let mut found = String::new();
-    for_each_source(tier, &mut |src| {
+    for_each_source(tier, &mut |_, src| {
         if idx == n {
             found = src.to_string();
         }
         idx += 1;
     });
     found
+}
+
+fn with_shape(json: String, shape: &str) -> String {
+    if shape.is_empty() || !json.ends_with('}') {
+        json
+    } else {
+        format!("{},\"shape\":{}}}", &json[..json.len() - 1], json_str(shape))
+    }
 }
 
 fn main() {
@@ -1537,73 +1602,115 @@ fn main() {
     }
 }
 
+/// one worker process of `gen`: cases `first, first + step, …` of the sequence
+struct Shard {
+    child: std::process::Child,
+    /// the worker's output lines, drained by a reader thread so that a worker never waits for
+    /// the parent to get round to it
+    lines: std::sync::mpsc::Receiver<String>,
+}
+
+fn spawn_shard(tier: &str, first: usize, step: usize, end: usize) -> Shard {
+    use std::io::BufRead;
+    let mut child = std::process::Command::new(std::env::current_exe().unwrap())
+        .args(["worker", tier, &first.to_string(), &step.to_string(), &end.to_string()])
+        .stdout(std::process::Stdio::piped())
+        .stderr(std::process::Stdio::null())
+        .spawn()
+        .unwrap();
+    let stdout = child.stdout.take().unwrap();
+    let (tx, rx) = std::sync::mpsc::sync_channel::<String>(4096);
+    std::thread::spawn(move || {
+        for line in std::io::BufReader::with_capacity(1 << 20, stdout).lines() {
+            match line {
+                Ok(l) => {
+                    if tx.send(l).is_err() {
+                        break;
+                    }
+                }
+                Err(_) => break,
+            }
+        }
+    });
+    Shard { child, lines: rx }
+}
+
 fn real_main() {
     quiet_panics();
     let args: Vec<String> = std::env::args().collect();
     let stdout = std::io::stdout();
-    let mut out = std::io::BufWriter::new(stdout.lock());
+    let mut out = std::io::BufWriter::with_capacity(1 << 20, stdout.lock());
     match args.get(1).map(|s| s.as_str()) {
         Some("gen") => {
             // The engine can abort the process (e.g. rendering a namespace that contains itself
             // overflows the stack), so the cases run in worker processes; an aborted case is
-            // reported as such and the run continues behind it.
+            // reported as such and the run continues behind it.  The sequence is dealt round-robin
+            // to `C18_SHARDS` workers (default: the number of cores, at most 12) and read back in
+            // sequence order, so the output does not depend on the number of workers.
             let tier = args.get(2).map(|s| s.as_str()).unwrap_or("quick").to_string();
-            let total = CORPUS.len() + n_generated(&tier);
-            let mut start = 0usize;
-            while start < total {
-                let mut child = std::process::Command::new(std::env::current_exe().unwrap())
-                    .args(["worker", &tier, &start.to_string()])
-                    .stdout(std::process::Stdio::piped())
-                    .stderr(std::process::Stdio::null())
-                    .spawn()
-                    .unwrap();
-                let mut got = 0usize;
-                {
-                    use std::io::BufRead;
-                    let rd = std::io::BufReader::new(child.stdout.take().unwrap());
-                    for line in rd.lines() {
-                        let line = line.unwrap();
+            // `gen <tier> [start count]`: only the cases start .. start+count of the sequence
+            let start: usize = args.get(3).and_then(|s| s.parse().ok()).unwrap_or(0);
+            let count: usize = args.get(4).and_then(|s| s.parse().ok()).unwrap_or(usize::MAX);
+            let total = n_sources(&tier).min(start.saturating_add(count));
+            let shards: usize = std::env::var("C18_SHARDS")
+                .ok()
+                .and_then(|s| s.parse().ok())
+                .unwrap_or_else(|| std::thread::available_parallelism().map(|n| n.get()).unwrap_or(4).min(12))
+                .max(1);
+            let mut workers: Vec<Shard> = (0..shards).map(|k| spawn_shard(&tier, start + k, shards, total)).collect();
+            for i in start..total {
+                let k = (i - start) % shards;
+                match workers[k].lines.recv() {
+                    Ok(line) => {
                         writeln!(out, "{}", line).unwrap();
-                        got += 1;
+                    }
+                    Err(_) => {
+                        // the worker died on case i: report it and go on behind it
+                        let _ = workers[k].child.wait();
+                        let src = nth_source(&tier, i);
+                        writeln!(out, "{}\t{{\"parse\":\"abort\"}}", hex(src.as_bytes())).unwrap();
+                        workers[k] = spawn_shard(&tier, i + shards, shards, total);
                     }
                 }
-                let status = child.wait().unwrap();
-                start += got;
-                if !status.success() && start < total {
-                    let src = nth_source(&tier, start);
-                    writeln!(out, "{}\t{{\"parse\":\"abort\"}}", hex(src.as_bytes())).unwrap();
-                    start += 1;
-                }
+            }
+            for w in workers.iter_mut() {
+                let _ = w.child.wait();
             }
         }
         Some("worker") | Some("srcs") => {
             let only_sources = args[1] == "srcs";
             let tier = args.get(2).map(|s| s.as_str()).unwrap_or("quick");
-            let start: usize = args.get(3).and_then(|s| s.parse().ok()).unwrap_or(0);
+            let first: usize = args.get(3).and_then(|s| s.parse().ok()).unwrap_or(0);
+            let step: usize = args.get(4).and_then(|s| s.parse().ok()).unwrap_or(1).max(1);
+            let end: usize = args.get(5).and_then(|s| s.parse().ok()).unwrap_or(usize::MAX);
             let mut idx = 0usize;
-            let mut emit = |out: &mut dyn Write, src: &str| {
-                if idx >= start {
+            let mut emit = |out: &mut dyn Write, shape: &str, src: &str| {
+                if idx >= first && idx < end && (idx - first) % step == 0 {
                     if only_sources {
                         writeln!(out, "{}", hex(src.as_bytes())).unwrap();
                     } else {
-                        writeln!(out, "{}\t{}", hex(src.as_bytes()), run_one(src)).unwrap();
+                        writeln!(out, "{}\t{}", hex(src.as_bytes()), with_shape(run_one(src, !shape.is_empty()), shape)).unwrap();
                         out.flush().unwrap();
                     }
                 }
                 idx += 1;
             };
-            for_each_source(tier, &mut |src| emit(&mut out, src));
+            for_each_source(tier, &mut |shape, src| emit(&mut out, shape, src));
+        }
+        Some("count") => {
+            let tier = args.get(2).map(|s| s.as_str()).unwrap_or("quick");
+            writeln!(out, "sequence={} systematic-product={} sparse={}", n_sources(tier), sys_total(), sys_sparse_total()).unwrap();
         }
         Some("one") => {
             let src = String::from_utf8(unhex(&args[2])).unwrap();
-            writeln!(out, "{}\t{}", hex(src.as_bytes()), run_one(&src)).unwrap();
+            writeln!(out, "{}\t{}", hex(src.as_bytes()), run_one(&src, false)).unwrap();
         }
         Some("text") => {
             let src = args[2].clone();
-            writeln!(out, "{}\t{}", hex(src.as_bytes()), run_one(&src)).unwrap();
+            writeln!(out, "{}\t{}", hex(src.as_bytes()), run_one(&src, false)).unwrap();
         }
         _ => {
-            eprintln!("usage: c18 gen <quick|thorough> | srcs <tier> | one <hex> | text <src>");
+            eprintln!("usage: c18 gen <quick|thorough> | srcs <tier> | count <tier> | one <hex> | text <src>");
             std::process::exit(2);
         }
     }
